@@ -24,6 +24,9 @@ CHECKS = {
  'C02': ('Hypothesis RuleBasedStateMachine over query/cache/save-load histories on one model vs brute-force joint oracle',
          'Stateful generated search: thousands of histories of project/bulk/krondot/datavector/cache/uncache/save-load/synthetic_data/scribble steps; after every step the answer is compared with the explicit joint in the requested axis order and with the first answer to the same question.',
          'Trusts the brute-force joint; krondot compared only while exp(potentials) stays in float range; calculate_many_marginals is given tuples (its dict-keyed interface).'),
+ 'C04': ('Hypothesis-generated measurement sets: loss vs oracle objective, gradient vs central difference, metamorphic spelling equivalence, Lipschitz constant vs eigenvalue of the Hessian assembled from the gradient map',
+         'Generated-input search over measurement sets (duplicates, nested, hub-shaped overlaps), noise scales, query spellings, metrics and directions; four executable oracles per case.',
+         'Observation points _setup/_marginal_loss/_lipschitz are the ones named in the property; projections over a single cell are excluded from the Lipschitz clause (eigsh k=1 needs >=2 cells).'),
 }
 NOT_YET = 'check not built yet (work in progress in this session); see DESIGN.md for the planned check'
 
